@@ -42,6 +42,68 @@ class Repo:
                     p = os.path.join(d, f)
                     rel = os.path.relpath(p, self.pkg)
                     self.modules[rel] = Module(rel, p)
+        self.expanded_properties = []
+        self._expand_properties()
+
+    # ---- normalisation
+    def _expand_properties(self):
+        """NORM: inside the methods of a class, a load of `self.<p>` where p is a read-only property whose body is
+        one `return <expression over self>` is replaced by that expression (copies get positions of their own), so
+        that every rule sees through such accessors (`self._total_snapshots`, `self.max_n`, ...)"""
+        import copy
+        counter = [0]
+
+        def simple_props(cname):
+            out = {}
+            for _, c in self.mro(cname):
+                setters = {ast.unparse(d).split(".")[0] for f in c.body if isinstance(f, ast.FunctionDef)
+                           for d in f.decorator_list if ast.unparse(d).endswith((".setter", ".deleter"))}
+                for f in c.body:
+                    if not isinstance(f, ast.FunctionDef) or f.name in out:
+                        continue
+                    if not any(ast.unparse(d) == "property" for d in f.decorator_list) or f.name in setters:
+                        continue
+                    body = [b for b in f.body if not (isinstance(b, ast.Expr) and isinstance(b.value, ast.Constant))]
+                    if len(body) == 1 and isinstance(body[0], ast.Return) and body[0].value is not None and \
+                            not any(isinstance(x, (ast.Lambda, ast.Yield, ast.YieldFrom, ast.NamedExpr)) for x in ast.walk(body[0].value)) \
+                            and all(x.id == "self" for x in ast.walk(body[0].value) if isinstance(x, ast.Name)
+                                    and isinstance(x.ctx, ast.Load) and x.id not in ("len", "min", "max", "int", "bool", "True", "False", "None")):
+                        out[f.name] = body[0].value
+            return out
+
+        class Sub(ast.NodeTransformer):
+            def __init__(self, props, skip):
+                self.props, self.skip, self.n = props, skip, 0
+
+            def visit_Attribute(self, node):
+                self.generic_visit(node)
+                if isinstance(node.ctx, ast.Load) and isinstance(node.value, ast.Name) and node.value.id == "self" \
+                        and node.attr in self.props and node.attr != self.skip:
+                    new = copy.deepcopy(self.props[node.attr])
+                    for x in ast.walk(new):
+                        if hasattr(x, "lineno") or isinstance(x, (ast.expr, ast.stmt)):
+                            counter[0] += 1
+                            x.lineno = node.lineno
+                            x.end_lineno = getattr(node, "end_lineno", node.lineno)
+                            x.col_offset = 20000 + counter[0]
+                            x.end_col_offset = 20000 + counter[0]
+                    self.n += 1
+                    return new
+                return node
+
+        for rel, c in list(self.all_classes()):
+            props = simple_props(c.name)
+            if not props:
+                continue
+            for f in c.body:
+                if not isinstance(f, ast.FunctionDef):
+                    continue
+                for _ in range(3):
+                    t = Sub(props, f.name if any(ast.unparse(d) == "property" for d in f.decorator_list) else None)
+                    t.visit(f)
+                    if not t.n:
+                        break
+                    self.expanded_properties.append((rel, c.name, f.name, t.n))
 
     # ---- anchors
     def module(self, rel):
